@@ -17,7 +17,7 @@ harness/drivers/x06: one real node (gossipsub / floodsub / randomsub) under test
   4. TV   TLC runs DiscoveryTrace over the projected lines and prints every failing predicate instance.
 """
 import concurrent.futures as cf
-import json, os, random, subprocess
+import json, os, random, signal, subprocess, time
 from .. import vlib
 
 LEVEL = "model_checking"
@@ -36,6 +36,7 @@ MUST_FAIL = {
 INVS = ["TypeOK", "P_X06_a", "P_X06_b", "P_X06_c1", "P_X06_c2", "P_X06_e1"]
 LIVE = ["P_X06_a_exit", "P_X06_c3", "P_X06_c3b", "P_X06_e2", "P_X06_h"]
 T1, T2 = '{"t1"}', '{"t1", "t2"}'
+STALL = 150
 
 
 def consts(topics, parts, maxref=1, qcap=2, callers='{"b1"}', dev=None):
@@ -129,13 +130,17 @@ def tlc_jobs(ctx, acc):
     jobs = {
         "mc-adv": dict(mod="Discovery", cfg=vlib.cfg_text(constants=consts(T2, '{"adv"}', maxref=2), invariants=INVS,
                                                          properties=["P_X06_a_exit", "P_X06_h"]), timeout=900),
-        "mc-disc": dict(mod="Discovery", cfg=vlib.cfg_text(constants=consts(T1, '{"poll", "api"}'), invariants=INVS,
+        "mc-disc": dict(mod="Discovery", cfg=vlib.cfg_text(constants=consts(T1, '{"poll", "api"}'), invariants=INVS), timeout=900),
+        "mc-poll": dict(mod="Discovery", cfg=vlib.cfg_text(constants=consts(T1, '{"poll"}'), invariants=INVS,
                                                           properties=["P_X06_c3", "P_X06_c3b", "P_X06_h"]), timeout=900),
+        "mc-api": dict(mod="Discovery", cfg=vlib.cfg_text(constants=consts(T1, '{"api"}'), invariants=INVS, properties=["P_X06_c3b", "P_X06_h"]), timeout=900),
         "mc-boot": dict(mod="Discovery", cfg=vlib.cfg_text(constants=consts(T1, '{"boot"}'), invariants=INVS,
                                                           properties=["P_X06_e2", "P_X06_h", "P_X06_c3b"]), timeout=900),
         "mc-bootpoll": dict(mod="Discovery", cfg=vlib.cfg_text(constants=consts(T1, '{"boot", "poll"}'), invariants=INVS), timeout=900),
     }
     if th:
+        jobs["mc-disc-live"] = dict(mod="Discovery", cfg=vlib.cfg_text(constants=consts(T1, '{"poll", "api"}'), invariants=INVS,
+                                                                      properties=["P_X06_c3", "P_X06_c3b", "P_X06_h"]), timeout=1500)
         jobs["mc-poll2"] = dict(mod="Discovery", cfg=vlib.cfg_text(constants=consts(T2, '{"poll"}'), invariants=INVS,
                                                                   properties=["P_X06_c3", "P_X06_c3b"]), timeout=1500)
         jobs["mc-bootpoll-live"] = dict(mod="Discovery", cfg=vlib.cfg_text(constants=consts(T1, '{"boot", "poll"}'), invariants=INVS,
@@ -147,25 +152,25 @@ def tlc_jobs(ctx, acc):
         jobs["mc-" + d] = dict(mod="Discovery", timeout=600, cfg=vlib.cfg_text(
             constants=consts(T1, parts, maxref=mr, dev=d), invariants=[prop] if kind == "inv" else [], properties=[prop] if kind == "prop" else []))
 
-    def gen(prelude, maxlen, topics=T2):
-        return {"Topics": topics, "MaxRef": 2, "PeerCounts": "{0, 1, 2, 6}", "MaxPub": 2, "Prelude": prelude, "MaxLen": maxlen}
-    for p in range(6):
-        jobs["gen-bfs%d" % p] = dict(mod="GenDiscovery", cfg=vlib.cfg_text(constants=gen(p, 2), invariants=["Emit"]), timeout=900, heap="4g")
+    def gen(preludes, maxlen, topics=T2):
+        return {"Topics": topics, "MaxRef": 2, "PeerCounts": "{0, 1, 2, 6}", "MaxPub": 2, "Preludes": preludes, "MaxLen": maxlen}
+    jobs["gen-bfs"] = dict(mod="GenDiscovery", cfg=vlib.cfg_text(constants=gen("{0, 1, 2, 3, 4, 5}", 2), invariants=["Emit"]), timeout=900, heap="4g", workers=1)
     if th:
-        for p in (1, 2, 3, 5):
-            jobs["gen-deep%d" % p] = dict(mod="GenDiscovery", cfg=vlib.cfg_text(constants=gen(p, 3, T1), invariants=["Emit"]), timeout=900, heap="6g")
-    jobs["gen-walks"] = dict(mod="GenDiscovery", cfg=vlib.cfg_text(constants=gen(0, 12), invariants=["Emit"]), mode="sim",
+        jobs["gen-deep"] = dict(mod="GenDiscovery", cfg=vlib.cfg_text(constants=gen("{1, 2, 3, 5}", 3, T1), invariants=["Emit"]), timeout=900, heap="6g")
+    jobs["gen-walks"] = dict(mod="GenDiscovery", cfg=vlib.cfg_text(constants=gen("{0}", 12), invariants=["Emit"]), mode="sim",
                              simulate="num=%d" % (3000 if th else 300), depth=14, timeout=600, workers=1, heap="4g")
     if os.environ.get("VERIF_X06_SKIP_MC"):      # development aid only (mutation trials)
         jobs = {k: v for k, v in jobs.items() if k.startswith("gen-")}
 
     def one(name):
         j = dict(jobs[name])
-        j.setdefault("workers", 2 if not th else 4)
+        # the must-fail configurations stop after a few states and the quick configurations are small: one TLC worker each,
+        # four jobs at a time (at most 4 TLC worker threads at quick, 8 at thorough)
+        j.setdefault("workers", 1 if (name[3:] in MUST_FAIL or not th) else 2)
         return name, vlib.run_tlc(ctx, FAMILY, j.pop("mod"), j.pop("cfg"), name=name, **j)
 
-    with cf.ThreadPoolExecutor(max_workers=2) as ex:
-        res = dict(ex.map(one, sorted(jobs, key=lambda n: (not n.startswith("mc-boot"), n))))
+    with cf.ThreadPoolExecutor(max_workers=4) as ex:
+        res = dict(ex.map(one, sorted(jobs, key=lambda n: (not n.startswith("gen-"), n[3:] in MUST_FAIL, n))))
     for n, r in res.items():
         if n.startswith("gen-"):
             continue
@@ -174,7 +179,7 @@ def tlc_jobs(ctx, acc):
             vlib.require_mc_fails(ctx, r, "Discovery with %s" % d, MUST_FAIL[d][3])
             acc["mc"]["%s_fails_%s" % (d, MUST_FAIL[d][3])] = True
         else:
-            vlib.require_mc_ok(ctx, r, "Discovery %s" % n, allow_timeout=n in ("mc-poll2", "mc-bootpoll-live", "mc-boot2", "mc-api2"))
+            vlib.require_mc_ok(ctx, r, "Discovery %s" % n, allow_timeout=n in ("mc-disc-live", "mc-poll2", "mc-bootpoll-live", "mc-boot2", "mc-api2"))
             acc["mc"][n] = [r.distinct, r.generated]
     pools = {}
     for n, r in res.items():
@@ -182,16 +187,17 @@ def tlc_jobs(ctx, acc):
             continue
         if r.timed_out or r.violated or (r.errors and n != "gen-walks") or (n != "gen-walks" and not r.no_error):
             raise vlib.Inconclusive("generator %s failed: %s (see %s/tlc.out)" % (n, r.errors[:2], r.dir))
-        seen, pool = set(), []
+        seen, got = set(), {}
         for s in r.printed("SCN"):
             k = json.dumps(s["evs"], sort_keys=True)
             if k not in seen:
                 seen.add(k)
-                pool.append(s["evs"])
-        pool.sort(key=lambda evs: json.dumps(evs, sort_keys=True))   # TLC's print order depends on its worker threads
-        if not pool:
+                got.setdefault("%s%d" % (n, s["pre"]) if n != "gen-walks" else n, []).append(s["evs"])
+        if not got:
             raise vlib.Inconclusive("generator %s emitted nothing (see %s/tlc.out)" % (n, r.dir))
-        pools[n] = pool
+        for pn, pool in got.items():
+            pool.sort(key=lambda evs: json.dumps(evs, sort_keys=True))   # TLC's print order depends on its worker threads
+            pools[pn] = pool
     for r in res.values():
         acc["states"] += r.distinct
         acc["transitions"] += r.generated
@@ -277,14 +283,33 @@ def run_shard(ctx, binp, scn_file, i, n, only=None, skip=(), tag=""):
     if only is not None:
         env["VERIF_ONLY"] = str(only)
     log = os.path.join(ctx.work, "go-shard-%d%s.log" % (i, tag))
+    stalled = False
     with open(log, "w") as lf:
-        try:
-            p = subprocess.run([binp, "-test.run", "^TestX06Replay$", "-test.timeout", "1500s"], cwd=ctx.work, env=env,
-                               stdout=lf, stderr=subprocess.STDOUT, timeout=1600)
-            rc = p.returncode
-        except subprocess.TimeoutExpired:
-            rc = -9
-    return {"rc": rc, "out": open(log, errors="replace").read(), "trace": outp, "marker": mark, "log": log}
+        p = subprocess.Popen([binp, "-test.run", "^TestX06Replay$", "-test.timeout", "1500s"], cwd=ctx.work, env=env,
+                             stdout=lf, stderr=subprocess.STDOUT)
+        # watchdog: a driver that writes nothing (trace, marker) for STALL seconds is wedged (e.g. a goroutine parked on a mutex
+        # inside the bubble stops virtual time for good): stop it with a goroutine dump; the caller replays the scenario alone
+        last, sizes, t0 = time.time(), None, time.time()
+        while True:
+            try:
+                p.wait(timeout=2)
+                break
+            except subprocess.TimeoutExpired:
+                pass
+            cur = tuple((os.path.getsize(f), os.path.getmtime(f)) if os.path.exists(f) else (0, 0) for f in (outp, mark))
+            if cur != sizes:
+                sizes, last = cur, time.time()
+            if time.time() - last > STALL or time.time() - t0 > 1600:
+                stalled = True
+                p.send_signal(signal.SIGQUIT)
+                try:
+                    p.wait(timeout=20)
+                except subprocess.TimeoutExpired:
+                    p.kill()
+                    p.wait()
+                break
+        rc = p.returncode if not stalled else -9
+    return {"rc": rc, "out": open(log, errors="replace").read(), "trace": outp, "marker": mark, "log": log, "stalled": stalled}
 
 
 def replay(ctx, binp, scns):
@@ -306,6 +331,8 @@ def replay(ctx, binp, scns):
             again = run_shard(ctx, binp, scn_file, i, n, only=int(sid), tag="-only%s" % sid)
             tail = again["out"].split("panic:")[1][:3000] if "panic:" in again["out"] else ""
             lib_panic = again["rc"] != 0 and "go-libp2p-pubsub" in tail and "deadlock: main bubble" not in tail
+            if again.get("stalled"):
+                raise vlib.Inconclusive("X06 driver wedges in scenario %s replayed alone (no output for %d s, goroutine dump in %s)" % (sid, STALL, again["log"]))
             dead.append((int(sid), lib_panic, again["log"] if again["rc"] != 0 else r["log"], again["rc"] == 0))
             if again["rc"] == 0:
                 traces.append(again["trace"])
@@ -349,7 +376,7 @@ def slim(row):
     a = row["act"]
     if a.get("a") == "reset":
         c = a["cfg"]
-        return {"a": "reset", "scn": row["scn"], "i": 0, "t": row["t"], "disc": c["disc"], "opts": c["opts"], "custom": c["conn"] == "custom",
+        return {"a": "reset", "scn": row["scn"], "i": 0, "t": row["t"], "disc": c["disc"], "opts": c["opts"], "custom": c["conn"] == "custom" and c["disc"],
                 "poll0": c["poll0"], "pollIv": c["pollIv"], "backoffMs": c["backoffMs"], "fixed": c["fixed"], "router": c["router"],
                 "Dlo": c["Dlo"], "Dhi": c["Dhi"], "RandomSubD": c["RandomSubD"], "FloodSize": c["FloodSize"], "optLimit": c["optLimit"],
                 "optTTL": c["optTTL"]}
@@ -440,7 +467,7 @@ def obligations(scn, rows, ob):
                     joined.add(t)
                     if kind == "pub":
                         pubs[a["m"]] = {"t": t, "start": t0, "evals": [], "to": a.get("to", 0)}
-                elif kind == "closeTopic" and subs.get(t, 0) + relays.get(t, 0) == 0:
+                elif kind == "closeTopic" and subs.get(t, 0) + relays.get(t, 0) == 0 and not any(p["t"] == t and "ret" not in p for p in pubs.values()):
                     joined.discard(t)
                 elif kind in ("end", "shutdown"):
                     shut = True
